@@ -134,6 +134,12 @@ def psConstruct (c : PSConst α) (data : Array α) : PSState α :=
 
 def psCopy (c : PSConst α) (s : PSState α) : PSState α := psConstruct c s.data
 
+/-- the grid written from outside (what every source map does through `getData()`): every bunch moved by one column;
+    no cached member (projections, populations, moments) changes -/
+def psShiftData (c : PSConst α) (s : PSState α) : PSState α :=
+  { s with data := ((List.range (c.nb * c.n * c.n)).map fun i =>
+      s.data.getD (i / (c.n * c.n) * (c.n * c.n) + (i / c.n % c.n + 1) % c.n * c.n + i % c.n) zero).toArray }
+
 /-! ### construction from the built-in Gaussians (constructor called without data) -/
 
 /-- first loop nest of `createFromProjections`: `data[b][x][y] = proj0[b][x]·proj1[b][y]` -/
